@@ -1417,7 +1417,48 @@ fn parse_vars(exprs: &[&Vec<SExpr>], _lsp_hints: &mut LspHints) -> Result<HashMa
             }
         }
     }
+    check_vars_are_not_cyclic(&vars)?;
     Ok(vars)
+}
+
+/// Variables are resolved when they are used, and a variable may refer to other variables.
+/// A variable that refers to itself, directly or through other variables, can never be resolved.
+fn check_vars_are_not_cyclic(vars: &HashMap<String, SExpr>) -> Result<()> {
+    fn collect_var_refs<'a>(expr: &'a SExpr, refs: &mut Vec<&'a str>) {
+        match expr {
+            SExpr::Atom(a) => {
+                if let Some(name) = a.t.strip_prefix('$') {
+                    refs.push(name);
+                }
+            }
+            SExpr::List(l) => l.t.iter().for_each(|e| collect_var_refs(e, refs)),
+        }
+    }
+    let mut unresolved: Vec<(&String, &SExpr, Vec<&str>)> = vars
+        .iter()
+        .map(|(name, expr)| {
+            let mut refs = vec![];
+            collect_var_refs(expr, &mut refs);
+            (name, expr, refs)
+        })
+        .collect();
+    // Repeatedly drop the variables that only refer to things that can be resolved.
+    // What remains refers to itself, or to a variable that does.
+    loop {
+        let num_unresolved = unresolved.len();
+        let pending: HashSet<&str> = unresolved.iter().map(|(name, ..)| name.as_str()).collect();
+        unresolved.retain(|(_, _, refs)| refs.iter().any(|r| pending.contains(r)));
+        if unresolved.len() == num_unresolved {
+            break;
+        }
+    }
+    if let Some((name, expr, _)) = unresolved.iter().min_by_key(|(name, ..)| name.as_str()) {
+        bail_expr!(
+            expr,
+            "The variable {name} refers to itself, directly or through other variables"
+        );
+    }
+    Ok(())
 }
 
 fn parse_list_var(expr: &Spanned<Vec<SExpr>>, vars: &HashMap<String, SExpr>) -> SExpr {
